@@ -48,8 +48,97 @@ func c10f(c *Ctx) {
 	if emit == nil {
 		return
 	}
+	if rs := c.Fn("emitter.chunk.renderStatements"); rs != nil {
+		dispatchTotal(c, rs, "renderStatements", 2)
+	}
+	dispatchTotal(c, emit, "Emit", 5)
+	heads := loopHeaders(emit)
+	// every successful return of the script emitter is what renderChunks produced (an early
+	// `return "", nil` for scripts judged empty leaves the script's label undefined)
+	if es, rc := c.Fn("emitter.Emitter.emitScriptStatement"), c.Fn("emitter.Emitter.renderChunks"); es != nil && rc != nil {
+		for i, r := range returnsOf(es) {
+			if !isSuccessReturn(r) || !c.mayBeSuccessRet(es, r) {
+				continue
+			}
+			ok := false
+			var leaves []ssa.Value
+			phiLeaves(r.Results[0], map[ssa.Value]bool{}, &leaves)
+			ok = len(leaves) > 0
+			for _, lf := range leaves {
+				ex, isEx := lf.(*ssa.Extract)
+				if !isEx {
+					ok = false
+					continue
+				}
+				call, isCall := ex.Tuple.(*ssa.Call)
+				if !isCall || callee(call) != rc || ex.Index != 0 {
+					ok = false
+				}
+			}
+			c.Check(ok, fmt.Sprintf("emitScriptStatement/returns-rendered-chunks#%d", i), c.W.Pos(r.Pos()), "a script's output is what renderChunks rendered", "emitScriptStatement can return "+pretty(c.term(es, r.Results[0]))+" without rendering its chunks: the script's label (and whatever refers to it) would be missing")
+		}
+	}
+	// renderChunks: the body of every chunk of the order is written, whether or not it gets a label
+	// (a chunk that "cannot be reached" may hold a user label that a goto elsewhere refers to)
+	if rc := c.Fn("emitter.Emitter.renderChunks"); rc != nil {
+		var writes []ssa.Instruction
+		for _, ci := range callsIn(rc) {
+			if calleeName(ci) != "(*strings.Builder).WriteString" || len(ci.Common().Args) < 2 {
+				continue
+			}
+			sc, ok := ci.Common().Args[1].(*ssa.Call)
+			if !ok || calleeName(sc) != "(*strings.Builder).String" {
+				continue
+			}
+			// the builder comes out of a map of bodies
+			if lk, ok := sc.Call.Args[0].(*ssa.Lookup); ok && loopHeaders(rc)[ci.Block()] != nil {
+				_ = lk
+				writes = append(writes, ci.(ssa.Instruction))
+			}
+		}
+		if len(writes) == 0 {
+			c.Bad("renderChunks/every-body-written", c.W.FuncPos(rc), "cannot find the loop that writes the rendered chunk bodies")
+		} else {
+			w, skip := loopSkip(rc, writes...)
+			c.Check(!skip, "renderChunks/every-body-written", c.W.Pos(writes[0].Pos()), "the body of every chunk in the order is written", "a chunk's rendered body can be left out of the script (a turn of the loop can reach "+c.nearPos(w)+" without the write): commands and user labels in it would be missing")
+		}
+	}
+	// program texts
+	if et := c.Fn("emitter.Emitter.emitText"); et != nil {
+		calls := callsToIn(emit, et)
+		c.Check(len(calls) >= 1, "Emit/texts/emitted", c.W.FuncPos(emit), "program texts are emitted", "Emit does not call emitText")
+		for _, ec := range calls {
+			pos := c.W.Pos(ec.Pos())
+			if heads[ec.Block()] == nil {
+				c.Bad("Emit/texts/every-text", pos, "emitText is not called in a loop over the program texts")
+				continue
+			}
+			w, skip := loopSkip(emit, ec.(ssa.Instruction))
+			c.Check(!skip, "Emit/texts/every-text", pos, "every program text is emitted", "some program texts are not emitted (an iteration can reach "+c.nearPos(w)+" without the call): the label a command refers to would be undefined")
+			var writes []ssa.Instruction
+			for _, ci := range callsIn(emit) {
+				if calleeName(ci) == "(*strings.Builder).WriteString" && len(ci.Common().Args) >= 2 && derivedFrom(ci.Common().Args[1], ec.(ssa.Value), 0) {
+					writes = append(writes, ci.(ssa.Instruction))
+				}
+			}
+			w, skip = loopSkip(emit, writes...)
+			c.Check(len(writes) > 0 && !skip, "Emit/texts/result-written", pos, "every emitted text is written to the output", "the rendering of a text is not always written to the output (an iteration can reach "+c.nearPos(w)+" without the write)")
+		}
+	}
+}
+
+// dispatchTotal: fn walks a list of statements and recognises their kinds by comma-ok type
+// assertions. For every kind whose value is used: the branch on which it was recognised cannot
+// come back to the loop header — nor leave the loop other than by a failing return — without a
+// call of a repo function that is given the statement, and a builder write of what that call
+// returned. And no turn of the loop comes back to the header having handed the statement to
+// nobody, except through the "recognised only to be set aside" branches (texts in Emit).
+func dispatchTotal(c *Ctx, emit *ssa.Function, label string, minArms int) {
 	heads := loopHeaders(emit)
 	nArms := 0
+	var allEmitCalls []ssa.Instruction
+	var asideEdges []*ssa.If
+	var loopHead *ssa.BasicBlock
 	instrs(emit, func(in ssa.Instruction) {
 		ta, ok := in.(*ssa.TypeAssert)
 		if !ok || !ta.CommaOk || ta.Referrers() == nil {
@@ -82,11 +171,13 @@ func c10f(c *Ctx) {
 		if branch == nil {
 			return
 		}
-		key := "Emit/" + kind
+		key := label + "/" + kind
+		loopHead = h
 		pos := c.W.Pos(ta.Pos())
 		if val == nil || val.Referrers() == nil || len(*val.Referrers()) == 0 {
 			// recognised only to be set aside (texts are rendered from program.Texts)
 			c.OK(key+"/set-aside", pos, "recognised and left to another loop")
+			asideEdges = append(asideEdges, branch)
 			return
 		}
 		nArms++
@@ -104,6 +195,7 @@ func c10f(c *Ctx) {
 				}
 			}
 		}
+		allEmitCalls = append(allEmitCalls, emitCalls...)
 		isOneOf := func(set []ssa.Instruction) func(ssa.Instruction) bool {
 			return func(x ssa.Instruction) bool {
 				for _, s := range set {
@@ -152,27 +244,40 @@ func c10f(c *Ctx) {
 			c.Check(len(writes) > 0 && !skip, key+"/result-written", c.W.Pos(ec.Pos()), "what the emit function returns is written to the output", fmt.Sprintf("the text returned for a %s is not always written to the output (the iteration can reach %s without the write)", kind, c.nearPos(w)))
 		}
 	})
-	c.Check(nArms >= 5, "Emit/arms", c.W.FuncPos(emit), "found the dispatch arms of Emit", fmt.Sprintf("expected at least 5 statement kinds dispatched in Emit's loop, found %d", nArms))
-	// program texts
-	if et := c.Fn("emitter.Emitter.emitText"); et != nil {
-		calls := callsToIn(emit, et)
-		c.Check(len(calls) >= 1, "Emit/texts/emitted", c.W.FuncPos(emit), "program texts are emitted", "Emit does not call emitText")
-		for _, ec := range calls {
-			pos := c.W.Pos(ec.Pos())
-			if heads[ec.Block()] == nil {
-				c.Bad("Emit/texts/every-text", pos, "emitText is not called in a loop over the program texts")
-				continue
-			}
-			w, skip := loopSkip(emit, ec.(ssa.Instruction))
-			c.Check(!skip, "Emit/texts/every-text", pos, "every program text is emitted", "some program texts are not emitted (an iteration can reach "+c.nearPos(w)+" without the call): the label a command refers to would be undefined")
-			var writes []ssa.Instruction
-			for _, ci := range callsIn(emit) {
-				if calleeName(ci) == "(*strings.Builder).WriteString" && len(ci.Common().Args) >= 2 && derivedFrom(ci.Common().Args[1], ec.(ssa.Value), 0) {
-					writes = append(writes, ci.(ssa.Instruction))
+	c.Check(nArms >= minArms, label+"/arms", c.W.FuncPos(emit), "found the dispatch arms of "+label, fmt.Sprintf("expected at least %d statement kinds dispatched in %s's loop, found %d", minArms, label, nArms))
+	// no statement is passed over before the dispatch either
+	if loopHead != nil {
+		body := loopBody(loopHead)
+		isEmit := func(x ssa.Instruction) bool {
+			for _, e := range allEmitCalls {
+				if e == x {
+					return true
 				}
 			}
-			w, skip = loopSkip(emit, writes...)
-			c.Check(len(writes) > 0 && !skip, "Emit/texts/result-written", pos, "every emitted text is written to the output", "the rendering of a text is not always written to the output (an iteration can reach "+c.nearPos(w)+" without the write)")
+			return false
 		}
+		edgeOK := func(b *ssa.BasicBlock, succ int) bool {
+			if !notErrorEdge(b, succ) {
+				return false
+			}
+			for _, a := range asideEdges {
+				if a.Block() == b && succ == 0 {
+					return false // recognised as a kind that another loop renders
+				}
+			}
+			return true
+		}
+		skipped := false
+		var wit ssa.Instruction
+		for _, s := range loopHead.Succs {
+			if !body[s] || s == loopHead {
+				continue
+			}
+			if _, found := existsPath(pathQuery{from: point{s, 0}, avoid: isEmit, edgeOK: edgeOK, stopAt: func(x ssa.Instruction) bool { return !body[x.Block()] }, target: func(x ssa.Instruction) bool { return !isEmit(x) && x.Block() == loopHead }}); found {
+				skipped = true
+				wit = s.Instrs[0]
+			}
+		}
+		c.Check(!skipped, label+"/no-statement-passed-over", c.W.FuncPos(emit), "every statement is handed to an emit function (or is of a kind another loop renders)", "a turn of "+label+"'s loop can come back to the loop head (from "+c.nearPos(wit)+") without the statement having been handed to any emit function: statements would be dropped depending on what they contain")
 	}
 }
